@@ -1,4 +1,5 @@
 import json
+import re
 from functools import wraps
 from typing import Callable, Optional, Set
 
@@ -17,6 +18,14 @@ class Index:
             self.ch = 'A'
             self.i += 1
         return value
+
+
+def string_literal(s: str) -> str:
+    """
+    Python string literal (double-quoted) for any string. Lone surrogates (i.e. unpaired \\ud83d escape in JSON data)
+    are escaped: as raw characters they can not be encoded and so can not be a part of a source file
+    """
+    return re.sub('[\ud800-\udfff]', lambda m: '\\u%04x' % ord(m.group()), json.dumps(s, ensure_ascii=False))
 
 
 def json_format(x) -> str:
